@@ -183,3 +183,16 @@ package util
 //@   use T0(derefT(t))
 //@   iterates cb count nMethodsOf(t) elem methodAt(namedOf(t), $i)
 //@   loop 1 invariant 0 <= i && $it.next == i && !$it.stopped
+
+//@ spec importPath(s *ast.ImportSpec) string = strReplaceAll(s.Path.Value, "\"", "")
+//@
+//@ func NewImportNames(specs) (r)
+//@   requires forall(i, 0, len(specs), specs[i] != nil && specs[i].Path != nil)
+//@   ensures {C13,C08} r != nil && fresh(r)
+//@   ensures {C13,C08} forall(i, 0, len(specs), has(r, importPath(specs[i])))
+//@   loop 1 invariant $k <= len(specs) && sameOld(imports) && sameOld(noNames) && fresh(imports)
+//@   loop 1 invariant forall(i, 0, $k, has(imports, importPath(specs[i]))) && (noNames == nil || fresh(noNames))
+//@   loop 2 invariant sameOld(imports) && fresh(imports)
+//@   loop 2 invariant $k <= len(noNames) && forall(i, 0, len(specs), has(imports, importPath(specs[i])))
+//@   loop 3 invariant sameOld(imports) && fresh(imports)
+//@   loop 3 invariant forall(i, 0, len(specs), has(imports, importPath(specs[i])))
